@@ -126,9 +126,9 @@ func funcLiteral(v ssa.Value) *ssa.Function {
 	v = deref(v)
 	switch x := v.(type) {
 	case *ssa.MakeClosure:
-		return x.Fn.(*ssa.Function)
+		return boundTarget(x.Fn.(*ssa.Function))
 	case *ssa.Function:
-		return x
+		return boundTarget(x)
 	}
 	return nil
 }
